@@ -32,6 +32,7 @@ func ChopFile(ctx context.Context, name string, chunks []IndexChunk, ws WriteSto
 
 		g.Go(func() error {
 			for c := range in {
+				verifYield("ChopFile.work")
 				// Update progress bar if any
 				pb.Increment()
 
@@ -52,6 +53,7 @@ func ChopFile(ctx context.Context, name string, chunks []IndexChunk, ws WriteSto
 	var interrupted bool
 loop:
 	for _, c := range chunks {
+		verifYield("ChopFile.feed")
 		select {
 		case <-ctx.Done():
 			interrupted = true
